@@ -54,12 +54,6 @@ package iam
 //@ func dpop.Parse
 //@   trusted
 //@   benign
-//@ func credential.PresentationIssuanceDate
-//@   trusted
-//@   benign
-//@ func credential.PresentationExpirationDate
-//@   trusted
-//@   benign
 //@ func time.Now
 //@   trusted
 //@   benign
